@@ -1,5 +1,12 @@
 """Claims added after the preprocessing core (one block per property)."""
 
+SOLVER = ("The linear solver (inkmath PCG, outside /repo) is an oracle: nothing is assumed about its answer; "
+          "what /repo does with the answer is modelled, proved and tied. ")
+
 
 def register(claim):
-    pass
+    claim("C05",
+          "Theorems (Q, closed under the global context) about the decision solve takes on the solver's answer, for every system, every requested error and every answer including NaN/Inf: accepted iff finite and every equation's exact residual is within the error (sound and complete); a rejected answer leaves the file system unchanged; a solution file that appears holds an accepted answer; supported equations within eps of zero.",
+          SOLVER + "Model/Recover.v accept is tied to ensureSolutionIsGoodEnough by correspondence stage E (evaluated in Coq on the (K, f, u, eps) the implementation saw, verdict compared with whether it went on), the exact-residual oracle runs on every accepted answer, and the binary's exit status / files are checked on the shipped examples, a mechanism and an unreachable error. Partial: convergence of the float PCG, and 'exactly zero' on supports (observed each run, delivered by the external solver).",
+          "machine-checked proof in Coq of the accept/fail decision + correspondence by vm_compute + exact residual oracle",
+          "DESIGN.md 4 (C05)")
